@@ -8,7 +8,8 @@ Import ListNotations.
 
 Section FoldPerm.
 Variables (A Y : Type) (f : A -> Y -> option A) (sens : Y -> bool) (Inv : A -> Prop).
-Hypothesis inv_step : forall a y b, Inv a -> f a y = Some b -> Inv b.
+Variable X : list Y.
+Hypothesis inv_step : forall a y b, In y X -> Inv a -> f a y = Some b -> Inv b.
 
 Definition obind (o : option A) (y : Y) : option A := match o with Some a => f a y | None => None end.
 Definition step2 (a : A) (x y : Y) : option A := obind (f a x) y.
@@ -24,14 +25,13 @@ Proof. induction l as [|x l IH]; [reflexivity|exact IH]. Qed.
 Lemma ofold_app l1 l2 o : ofold (l1 ++ l2) o = ofold l2 (ofold l1 o).
 Proof. unfold ofold. apply fold_left_app. Qed.
 
-Variable X : list Y.
 (* an element whose order does not matter commutes with every element *)
 Hypothesis comm : forall x y, In x X -> In y X -> sens x = false -> forall a, Inv a -> step2 a x y = step2 a y x.
 
 Definition oinv (o : option A) : Prop := match o with Some a => Inv a | None => True end.
 
-Lemma oinv_step o y : oinv o -> oinv (obind o y).
-Proof. destruct o as [a|]; [|auto]. cbn. intros H. destruct (f a y) as [b|] eqn:E; [apply (inv_step a y b H E)|exact I]. Qed.
+Lemma oinv_step o y : In y X -> oinv o -> oinv (obind o y).
+Proof. intros Hy. destruct o as [a|]; [|auto]. cbn. intros H. destruct (f a y) as [b|] eqn:E; [apply (inv_step a y b Hy H E)|exact I]. Qed.
 
 Lemma comm_o x y o : In x X -> In y X -> sens x = false -> oinv o -> obind (obind o x) y = obind (obind o y) x.
 Proof. intros Hx Hy Hs Ho. destruct o as [a|]; [apply (comm x y Hx Hy Hs a Ho)|reflexivity]. Qed.
@@ -43,11 +43,8 @@ Proof.
   induction I' as [|y I' IH]; intros o Hx Hi Hs Ho; [reflexivity|]. cbn [ofold fold_left].
   change (fold_left obind I' (obind (obind o x) y)) with (ofold I' (obind (obind o x) y)).
   rewrite <- (comm_o y x o) by (auto using in_eq; apply Hi || apply Hs; left; reflexivity).
-  rewrite IH; [reflexivity|exact Hx|intros z Hz; apply Hi; right; exact Hz|intros z Hz; apply Hs; right; exact Hz|apply oinv_step, Ho].
+  rewrite IH; [reflexivity|exact Hx|intros z Hz; apply Hi; right; exact Hz|intros z Hz; apply Hs; right; exact Hz|apply oinv_step; [apply Hi; left; reflexivity|exact Ho]].
 Qed.
-
-Lemma ofold_inv l o : oinv o -> oinv (ofold l o).
-Proof. revert o. induction l as [|x l IH]; intros o H; [exact H|]. apply IH, oinv_step, H. Qed.
 
 (* a list folds like its insensitive elements followed by its sensitive ones *)
 Lemma split_fold l : forall o, incl l X -> oinv o ->
@@ -58,11 +55,11 @@ Proof.
   assert (Hl : incl l X) by (intros z Hz; apply Hi; right; exact Hz).
   cbn [filter]. destruct (sens x) eqn:Es; cbn [negb].
   - cbn [ofold fold_left]. change (fold_left obind l (obind o x)) with (ofold l (obind o x)).
-    rewrite IH by (auto using oinv_step). change (fold_left obind (filter sens l) ?z) with (ofold (filter sens l) z).
+    rewrite IH by (auto using (oinv_step o x Hx)). change (fold_left obind (filter sens l) ?z) with (ofold (filter sens l) z).
     f_equal. apply move_right; auto.
     + intros z Hz. apply filter_In in Hz as [Hz _]. apply Hl, Hz.
     + intros z Hz. apply filter_In in Hz as [_ Hz]. apply negb_true_iff in Hz. exact Hz.
-  - cbn [ofold fold_left]. apply IH; auto using oinv_step.
+  - cbn [ofold fold_left]. apply IH; auto using (oinv_step o x Hx).
 Qed.
 
 (* insensitive elements commute with one another *)
@@ -71,7 +68,7 @@ Lemma perm_fold I1 I2 : Permutation I1 I2 -> incl I1 X -> (forall y, In y I1 -> 
 Proof.
   induction 1 as [|x l l' Hp IH|x y l|l l' l'' H1 IH1 H2 IH2]; intros Hi Hs o Ho.
   - reflexivity.
-  - cbn [ofold fold_left]. apply IH; [intros z Hz; apply Hi; right; exact Hz|intros z Hz; apply Hs; right; exact Hz|apply oinv_step, Ho].
+  - cbn [ofold fold_left]. apply IH; [intros z Hz; apply Hi; right; exact Hz|intros z Hz; apply Hs; right; exact Hz|apply oinv_step; [apply Hi; left; reflexivity|exact Ho]].
   - cbn [ofold fold_left]. f_equal. apply comm_o; [apply Hi; left; reflexivity|apply Hi; right; left; reflexivity|apply Hs; left; reflexivity|exact Ho].
   - rewrite IH1 by assumption. apply IH2; [|intros z Hz; apply Hs; apply (Permutation_in _ (Permutation_sym H1)), Hz|exact Ho].
     intros z Hz. apply Hi. apply (Permutation_in _ (Permutation_sym H1)), Hz.
